@@ -21,8 +21,9 @@ def effective_timeout(timeout: T.Optional[int], mult: T.Optional[float]) -> T.Op
     return timeout * mult
 
 
-def classify_exitcode(code: int, should_fail: bool) -> str:
-    if code == 0:
+def classify_exitcode(code: int, should_fail: bool, expected: int = 0) -> str:
+    # expected_exitcode (1.11): "the test is considered passed if the executable returns the specified returncode"
+    if code == (expected or 0):
         r = 'OK'
     elif code == 77:
         r = 'SKIP'
